@@ -98,6 +98,7 @@ def controlled_stage(drv, pid, tier, seed, nshards, cap):
             problems.append("controlled stage: shard %d exited with status %s, see %s" % (i, rc, log))
         if rc == 1 and not violations:
             problems.append("controlled stage: shard %d failed without a violation record:\n%s" % (i, open(log).read()[-1500:]))
+    c02.drop_alt(binary)
     return ev, violations, problems, timed_out, outdir
 
 
